@@ -755,8 +755,6 @@ def corr(ctx):
         rng.shuffle(kpts)
         vals = [rng.randint(-9, 9) for _ in kpts]
         case = dict(grid=g, kpoints=[[str(x) for x in k] for k in kpts], values=vals, style=style)
-        lines.append(f"kmap {ints(g)} {';'.join(rats(k) for k in kpts)}")
-        # code: the k_map is internal; reconstruct it from to_grid on indicator data is overkill - compare results
         try:
             with quiet():
                 import warnings
@@ -769,6 +767,10 @@ def corr(ctx):
             exp = ("grid", out.results["Energy"].data.reshape(-1), out.kpoints)
         except ZeroDivisionError:
             exp = "ERR"
+        except Exception as e:  # noqa  - any other exception on these valid inputs is a failure of the real code
+            ctx.fail(f"TABresult.to_grid raised {type(e).__name__}: {str(e)[:200]}", case)
+            continue
+        lines.append(f"kmap {ints(g)} {';'.join(rats(k) for k in kpts)}")
         checks.append(("kmap", case, None))
         lines.append(f"togrid {ints(g)} {';'.join(rats(k) for k in kpts)} {rats(vals)}")
         checks.append(("togrid", case, exp))
